@@ -57,6 +57,8 @@ def run(ctx):
   rule_cusum(ctx)
   rule_formula(ctx)
   rule_pure(ctx)
+  rule_ladder(ctx)
+  ctx.expect("R-C12-LADDER", 3, "loop condition, guard agreement, matrix shape")
   ctx.expect("R-C12-PURE", 56, "every function of the five modules behind the statistical tests")
   ctx.expect("R-C12-FORMULA", 20, "statistic formulas of ten tests")
   ctx.expect("R-C12-TABLES", 60, "17 longest-run + 6 + 33 rank + universal + 11 min_n + 14 linear complexity + 3 excursions")
@@ -721,3 +723,88 @@ def memo_sound(repo, fn, node):
       return "the stored value depends on %s, which is not part of the key: a later call with the same key and another %s reads a stale entry" % (
           ", ".join(extra), extra[0])
   return True
+
+
+# ------------------------------------------------------------------ LADDER: LargeBinaryMatrixRank tests every power-of-two matrix that fits
+def canon_le(fc):
+  """cmp fact -> (poly e, bound c) meaning e <= c (integers), or None."""
+  if fc[0] != "cmp" or isinstance(fc[2], Seq) or isinstance(fc[3], Seq):
+    return None
+  e = as_poly(fc[2]) - as_poly(fc[3])
+  op = fc[1]
+  if op in ("GtE", "Gt"):
+    e = -e
+  elif op not in ("LtE", "Lt"):
+    return None
+  c0 = const_term(e)
+  if c0 is None:
+    return None
+  return e - c0, (0 if op in ("LtE", "GtE") else -1) - c0
+
+
+def const_term(e):
+  c = e.t.get((), 0)
+  return int(c) if getattr(c, "denominator", 1) == 1 else None
+
+
+def rule_ladder(ctx, R="R-C12-LADDER"):
+  repo = ctx.repo
+  f = repo.func(EXT, "LargeBinaryMatrixRank")
+  w = sym.Walker(repo, f)
+  w.run()
+  bits, n = [P("param", x) for x in f.params()[:2]]
+  loops = [i for i in w.loop_info.values() if isinstance(i["node"], ast.While) and i["visits"]]
+  if len(loops) != 1:
+    raise Incomplete("LargeBinaryMatrixRank: expected one while loop over the matrix sizes", f.where)
+  info = loops[0]
+  vis = info["visits"][0]
+  head, pre = vis["head"].env, vis["pre_env"]
+  # the size variable: starts at a constant, doubles on every pass
+  size = None
+  for nm in info["modified"]:
+    if nm in pre and isinstance(pre[nm], (Const, Poly)) and as_poly(pre[nm]).as_int() is not None and nm in head:
+      S = as_poly(head[nm])
+      paths = [bp for bp in info["body_paths"] if bp[4] is vis]
+      if paths and all(k == "fall" and not isinstance(s.env[nm], Seq) and (as_poly(s.env[nm]) - S * 2).is_zero() for k, v, s, since, v2 in paths):
+        size = nm
+  if size is None:
+    ctx.violation(R, f.where, "matrix sizes double from a constant", "no loop variable starts at a constant and doubles on every pass")
+    return
+  S = as_poly(head[size])
+  s0 = as_poly(pre[size]).as_int()
+  cond = [canon_le(fc) for fc in vis["head"].facts[len(vis["pre"].facts):]]
+  cond = [c for c in cond if c is not None]
+  want = S * S - n
+  ok = len(cond) == 1 and (cond[0][0] - want).is_zero() and cond[0][1] == 0
+  if ok:
+    detail = "sizes %d, %d, ... are tested while size^2 <= n: every power-of-two matrix that fits the data, including an exact fit" % (s0, 2 * s0)
+  elif len(cond) == 1 and (cond[0][0] - want).is_zero():
+    detail = "loop runs while size^2 <= n %+d: a matrix that fits the data exactly is %s" % (cond[0][1], "never tested" if cond[0][1] < 0 else "exceeded")
+  else:
+    detail = "loop condition is not `size * size <= n`"
+  ctx.record(R, f.where, "every matrix with size^2 <= n is tested", ok, detail)
+  # guard and first step agree: data accepted by the guard yields at least one p-value
+  raises = [e for e in w.events if e.kind == "raise"]
+  okg = bool(raises)
+  dg = "raised iff n < %d^2, and n >= %d^2 enters the loop: at least one p-value" % (s0, s0)
+  for e in raises:
+    g = [canon_le(fc) for fc in e.facts]
+    g = [c for c in g if c is not None]
+    # guard n - s0^2 <= -1  <=>  n < s0^2
+    if not (len(g) == 1 and (g[0][0] - (n - s0 * s0)).is_zero() and g[0][1] == -1):
+      okg = False
+      dg = "insufficient-data guard is not n < %d" % (s0 * s0)
+  if okg and not ok and len(cond) == 1 and (cond[0][0] - want).is_zero() and cond[0][1] < 0:
+    okg = False
+    dg = "n = %d passes the data-size guard but the first matrix is not tested: empty result" % (s0 * s0)
+  ctx.record(R, f.where, "guard and first step agree", okg, dg)
+  # each step looks at the low size^2 bits as a size x size matrix
+  calls = [e for e in w.events if e.kind == "call" and e.data["name"].endswith("util:SplitSequence")]
+  oks = bool(calls)
+  for e in calls:
+    a = e.data["args"]
+    tr = sym.mk("band", bits, sym.mk("shl", Poly.const(1), S * S) - 1)
+    if len(a) < 3 or as_poly(a[0]) != tr or as_poly(a[1]) != S * S or as_poly(a[2]) != S:
+      oks = False
+  ctx.record(R, f.where, "matrix = low size^2 bits in rows of size", oks, "SplitSequence(bits & (2^(size^2) - 1), size^2, size)" if oks else
+             "the matrix handed to the rank computation is not the size x size prefix of the bit string")
